@@ -332,6 +332,13 @@ def b_dual(tier, seed):
                     cause = ""
                     if _has_copysign_first(e, wnode):
                         cause = " cause=copysign-first-argument"
+                    if got[0] == "val" and close(got[1], ref.d) and isinstance(ref.d, (int, Fraction)) and isinstance(got[1], float) \
+                            and _has_float(r[1]) and not _has_float(e):
+                        # numerically right, but the differentiator itself put a float approximation of an exact rational into the tree
+                        b.fail(Failure("dual-numbers", f"what=inexact-derivative cause=integer-quotient-as-float expr={e!r} wrt={wrt!r} flag={flag} point={pi}",
+                                       dict(kind="value", expr=repr(e), wrt=repr(wrt), flag=flag, point=pi), expected=repr(ref.d),
+                                       actual=f"{got[1]!r} from {r[1]!r}"[:200], functions=["DifferentiationMapper.map_quotient"]))
+                        break
                     if got[0] != "val" or not close(got[1], ref.d):
                         if got[0] == "exc" and issubclass(got[1], (ZeroDivisionError, OverflowError, ValueError)) and _edge(e, env):
                             continue
@@ -355,6 +362,11 @@ def b_dual(tier, seed):
                     b.fail(Failure("dual-numbers", f"what=history expr={e!r} wrt={wrt!r} point={pi}", dict(kind="hist", expr=repr(e), wrt=repr(wrt), point=pi),
                                    expected=repr(ref.d), actual=outcome.describe(got)[:200], functions=["CSECachingMapperMixin.map_common_subexpression"]))
     return b
+
+
+def _has_float(e):
+    from props.c06 import all_nodes
+    return any(isinstance(n, float) for n in all_nodes(e))
 
 
 def _defined_somewhere(e, envs, wnode):
